@@ -9,6 +9,7 @@ import subprocess
 import sys
 
 SEEDED = "/verif/seeded"
+VERIF = "/verif"
 BASE = "cd /repo && /venv/bin/python -m pytest -q -p no:cacheprovider --timeout=900 --continue-on-collection-errors -n 8 2>&1 | tail -1"
 
 
@@ -32,6 +33,11 @@ def do_eval(name, checks):
     if out.strip():
         sys.exit("/repo is not clean: " + out)
     res = {}
+    # evidence written while a seeded change is applied must not replace the evidence of the unchanged tree
+    keep = {}
+    for c in checks:
+        ep = os.path.join(VERIF, "evidence", c + ".json")
+        keep[ep] = open(ep).read() if os.path.exists(ep) else None
     rc, out = sh("cd /repo && PYTHONPATH=/repo /venv/bin/python %s/demo.py" % d)
     res["demo_without_patch_rc"] = rc
     rc, out = sh("git -C /repo apply %s/patch.diff" % d)
@@ -40,8 +46,11 @@ def do_eval(name, checks):
     try:
         rc, out = sh("cd /repo && PYTHONPATH=/repo /venv/bin/python %s/demo.py" % d)
         res["demo_with_patch_rc"] = rc
-        rc, out = sh(BASE)
-        res["tests_with_patch"] = out.strip()
+        if os.environ.get("SEEDED_NOTESTS") and "evaluation" in meta:
+            res["tests_with_patch"] = meta["evaluation"].get("tests_with_patch")
+        else:
+            rc, out = sh(BASE)
+            res["tests_with_patch"] = out.strip()
         det = {}
         for c in checks:
             rc, out = sh("cd /verif && ./check %s --tier quick" % c, timeout=3600)
@@ -51,6 +60,12 @@ def do_eval(name, checks):
         res["checks"] = det
     finally:
         sh("git -C /repo checkout -- .")
+        for ep, txt in keep.items():
+            if txt is None:
+                if os.path.exists(ep):
+                    os.remove(ep)
+            else:
+                open(ep, "w").write(txt)
     meta["evaluation"] = res
     meta["detected_by"] = sorted(c for c, r in res["checks"].items() if r["rc"] != 0)
     json.dump(meta, open(os.path.join(d, "meta.json"), "w"), indent=1)
